@@ -187,15 +187,21 @@ class Check(object):
                                    'theorem_or_correspondence': 'model vs specification layer / model driver (' + str(v) + ')'},
                                   suffix='no-failing-input-found')
                 continue
-            if nshrunk >= 60:
-                break
+            try:
+                sig0 = self.signature(c, d)
+                shape0 = sig0.get('shape')
+            except Exception:
+                sig0, shape0 = {}, None
+            # a listed finding whose signature is its shape alone is recognised before shrinking (the shrinker keeps the shape), so that
+            # frequent known findings do not use up the shrink budget and hide other failures behind it
+            pre = [kf for kf in known if set(kf.get('signature', {})) == {'shape'} and shrink.sig_match(kf['signature'], sig0)]
+            if pre:
+                rep.known(pre[-1])
+                continue
             nshrunk += 1
             try:
-                shape0 = self.signature(c, d).get('shape')
-            except Exception:
-                shape0 = None
-            try:
-                c2, d2 = shrink.shrink_case(c, lambda x: self.still_fails(model, x, shape0), budget=self.SHRINK_BUDGET) if (self.SHRINK and 'f' in c) else (c, d)
+                # (beyond 60 shrunk cases the remaining ones are judged unshrunk: none is skipped)
+                c2, d2 = shrink.shrink_case(c, lambda x: self.still_fails(model, x, shape0), budget=self.SHRINK_BUDGET) if (self.SHRINK and 'f' in c and nshrunk <= 60) else (c, d)
             except Exception:
                 c2, d2 = c, d          # a failing case is reported unshrunk rather than lost
             if d2 is None:
